@@ -14,6 +14,9 @@ def run(tier):
     common.ext_type_sweep(rep, binary, PROP)
     # typed contents that are a bare number: every value of the number (all 256 / 65536) through the extension parsers
     common.site_sweep(rep, binary, PROP, keep=lambda s: s["fn"].startswith("parse_tls_extension") or s["fn"].endswith("_extension"))
+    # (growth) seeded, structurally random typed values (counts 0 .. dozens, arbitrary sizes and contents) alone and in lists, three dispatchers
+    common.mc_replay(rep, binary, PROP, "MC_C05_Rand", keyf=lambda c: "rand:%s:%s" % (c["note"]["t"], c["id"]), run="rand", nchunks=12,
+                     env={"VERIF_SEED": str(vlib.seed())})
     # (growth) every length of the variable-size fields, not only the boundaries (MC_LenSweep)
     common.len_sweep(rep, binary, PROP)
     return rep.finish("model_checking",
